@@ -225,7 +225,7 @@ func verifyFunction(prog *Program, db *SpecDB, con *Contract) (res *FuncResult) 
 	if len(f.rets) == 0 {
 		vc.unsupported = append(vc.unsupported, "function has no reachable return")
 	}
-	vc.finalizeAxioms()
+	vc.reveal(con.Reveal)
 	vc.finalizeAxioms()
 	res.Obligations = vc.obls
 	return
@@ -303,6 +303,41 @@ func (f *Frame) frameObligations(con *Contract, st *State, k int) {
 		goal := fmt.Sprintf("(forall ((r Int)) (=> %s (= (select %s r) (select %s r))))", andT(conds...), after, before)
 		vc.addObl(&Obligation{Name: fmt.Sprintf("%s/frame[%s]/return#%d", con.Name, unq(name), k), Kind: "frame", Props: con.Props,
 			PC: st.pc, Goal: goal, Src: "heap " + unq(name) + " unchanged outside modifies"})
+	}
+}
+
+// reveal adds the defining axiom of opaque pure functions to this VC.
+func (vc *VC) reveal(names []string) {
+	for _, name := range names {
+		if name == "go_div" || name == "go_mod" {
+			if !vc.pureDecl["reveal:go_div"] {
+				vc.pureDecl["reveal:go_div"] = true
+				vc.axiomDecls = append(vc.axiomDecls, goDivDef)
+				vc.axiomNames = append(vc.axiomNames, "reveal:go_div")
+			}
+			continue
+		}
+		pf := vc.db.Pures[name]
+		if pf == nil || pf.Def == nil {
+			specFail("reveal: %s is not an opaque pure function", name)
+		}
+		pkg := vc.pkgByRel(pf.Pkg)
+		env := &SpecEnv{vc: vc, names: map[string]SVal{}, pkg: pkg}
+		var binds, args []string
+		for _, p := range pf.Params {
+			ty := vc.resolveType(p.Type, pkg)
+			vc.n++
+			q := smtSym(fmt.Sprintf("rv_%s!%d", p.Name, vc.n))
+			binds = append(binds, fmt.Sprintf("(%s %s)", q, ty.Sort))
+			args = append(args, q)
+			env.names[p.Name] = SVal{q, ty}
+		}
+		vc.declarePure(pf)
+		vc.usedPures[name] = true
+		body := env.eval(pf.Def)
+		call := fmt.Sprintf("(%s %s)", smtSym("pure:"+name), strings.Join(args, " "))
+		vc.axiomDecls = append(vc.axiomDecls, fmt.Sprintf("(assert (forall (%s) (! (= %s %s) :pattern (%s))))", strings.Join(binds, " "), call, body.T, call))
+		vc.axiomNames = append(vc.axiomNames, "reveal:"+name)
 	}
 }
 
@@ -407,6 +442,8 @@ func verifyLemma(prog *Program, db *SpecDB, lm *Lemma) (res *FuncResult) {
 	for i, r := range lm.Ensures {
 		vc.addObl(&Obligation{Name: fmt.Sprintf("%s/ensures[%d]", res.Name, i), Kind: "lemma", Props: lm.Props, PC: pc, Goal: post[i], Src: r.Src})
 	}
+	vc.reveal(lm.Reveal)
+	vc.finalizeAxioms()
 	res.Obligations = vc.obls
 	return
 }
